@@ -865,6 +865,15 @@ def mini_exec(fn: ast.FunctionDef, args: Dict[str, object], budget: int = 2000, 
             raise _PathEval.Unknown("too many steps")
         return mini_exec(m_, cargs_, budget, methods, _depth + 1, functions, ctors, classes)
 
+    def obj_text(v_):
+        """str() of a sample object of a modelled class: its own __str__ / __repr__."""
+        if isinstance(v_, SampleObj) and classes and v_.get("__kind__") in classes:
+            for special_ in ("__str__", "__repr__"):
+                m2_ = classes[v_["__kind__"]].get(special_)
+                if isinstance(m2_, ast.FunctionDef):
+                    return mini_exec(m2_, {m2_.args.args[0].arg: v_}, budget, methods, _depth + 1, functions, ctors, classes)
+        raise _PathEval.Unknown("str() of a sample object")
+
     def ev(e):
         if isinstance(e, ast.Attribute):
             try:
@@ -980,6 +989,8 @@ def mini_exec(fn: ast.FunctionDef, args: Dict[str, object], budget: int = 2000, 
                     raise _Raised(f"{e.func.attr}: {ex}")
         if isinstance(e, ast.Call) and isinstance(e.func, ast.Name) and e.func.id in ("repr", "ord", "chr", "hex", "oct", "abs", "round") and e.func.id not in env:
             vals_ = [ev(x) for x in e.args]
+            if e.func.id == "repr" and len(vals_) == 1 and isinstance(vals_[0], SampleObj):
+                return obj_text(vals_[0])
             if any(isinstance(v_, (SampleObj, ClassTok)) for v_ in vals_):
                 raise _PathEval.Unknown(f"{e.func.id}() of a sample object")
             try:
@@ -1119,6 +1130,23 @@ def mini_exec(fn: ast.FunctionDef, args: Dict[str, object], budget: int = 2000, 
             if type(recv) in (list, dict, str, tuple, set) and e.func.attr in _VALUE_METHODS[type(recv)]:
                 a_ = [ev(x) for x in e.args]
                 kw_ = {k.arg: ev(k.value) for k in e.keywords if k.arg}
+                if type(recv) is str and e.func.attr == "format":
+                    # a sample object printed as a whole (`'{}'.format(typename)`) prints through its class's __repr__ / __str__
+                    import string as _string
+                    plain_ = set()
+                    auto_ = 0
+                    for _lit, fld_, _spec, _conv in _string.Formatter().parse(recv):
+                        if fld_ is None:
+                            continue
+                        if fld_ == "":
+                            plain_.add(auto_)
+                            auto_ += 1
+                        elif fld_.isdigit():
+                            plain_.add(int(fld_))
+                        elif fld_.isidentifier():
+                            plain_.add(fld_)
+                    a_ = [obj_text(v_) if isinstance(v_, SampleObj) and i_ in plain_ else v_ for i_, v_ in enumerate(a_)]
+                    kw_ = {k_: (obj_text(v_) if isinstance(v_, SampleObj) and k_ in plain_ else v_) for k_, v_ in kw_.items()}
                 try:
                     r_ = getattr(recv, e.func.attr)(*a_, **kw_)
                 except (TypeError, ValueError, IndexError, KeyError, AttributeError) as ex:
@@ -1131,7 +1159,10 @@ def mini_exec(fn: ast.FunctionDef, args: Dict[str, object], budget: int = 2000, 
                     out_.append(str(v_.value))
                 elif isinstance(v_, ast.FormattedValue) and v_.format_spec is None and v_.conversion == -1:
                     x_ = ev(v_.value)
-                    if isinstance(x_, (SampleObj, ClassTok)) or callable(x_):
+                    if isinstance(x_, SampleObj):
+                        out_.append(obj_text(x_))
+                        continue
+                    if isinstance(x_, ClassTok) or callable(x_):
                         raise _PathEval.Unknown("a sample object formatted into text")
                     out_.append(str(x_))
                 else:
@@ -1197,7 +1228,7 @@ def mini_exec(fn: ast.FunctionDef, args: Dict[str, object], budget: int = 2000, 
             f_ = {"range": range, "min": min, "max": max, "zip": zip, "enumerate": enumerate, "all": all, "any": any, "len": len, "list": list,
                   "tuple": tuple, "bool": bool, "sorted": sorted, "reversed": reversed, "dict": dict, "set": set, "str": str, "int": int, "sum": sum}[e.func.id]
             if e.func.id == "str" and any(isinstance(v_, SampleObj) for v_ in vals):
-                raise _PathEval.Unknown("str() of a sample object")
+                return obj_text(vals[0])
             kws_ = {k.arg: ev(k.value) for k in e.keywords if k.arg}
             try:
                 r = f_(*vals, **kws_)
